@@ -131,6 +131,8 @@ def enc_obj(o, cx: Ctx):
                 return ("OInst", class_code(t), i)
         raise OutOfFragment("unknown instance")
     if isinstance(o, type):
+        if type(o) is not type:  # enum classes / ABCs as objects: their metaclass makes them iterable, sized, ...
+            raise OutOfFragment("class object with a metaclass")
         return ("OClass", class_code(o))
     if t is tuple:
         ident = 0 if is_hashable(o) else cx.ident(o)
